@@ -7,7 +7,7 @@ from . import _difffam as FAM
 
 ID = 'C02'
 LEAN_TARGETS = ['Properties.C02']
-THEOREMS = ['Diff.C02_copy_empty', 'Diff.C02_empty_eq', 'Diff.C02_N_spoof_set']
+THEOREMS = ['Diff.C02_copy_empty', 'Diff.C02_alignRefl_of_equal_only', 'Diff.C02_N_spoof_set']
 RULE = ('nested values and (a) their deep copies, (b) their single-edit neighbours (every kind of one-step difference at every depth), (c) random edits, under '
         'view x verbose_level in {1,2} x threshold_to_diff_deeper x zip_ordered_iterables x cache_size x max_passes (and ignore_order for the copy clause); '
         'emptiness is compared with structural / Python equality and the full result with the Lean model. distinct = distinct (t1, t2, config); '
